@@ -45,9 +45,12 @@ class Geo:
             cells = [float(c) for c in m.cell]
         else:
             cells = edges
-        if min(cells) < self.u * 2.0**-8 or max(edges) > self.u * 2.0**12:
+        if min(cells) < self.u * 2.0**-8 or max(edges) > self.u * 2.0**10:
             return False
-        return reg.maxabs() <= 1e3 * min(cells) * 8
+        # the library's alignment test has an ABSOLUTE tolerance of 1e-12: coordinates
+        # stay below 1024 units so that one rounding of cell = edges/n (n = 3, 5, 6),
+        # amplified by the number of cells to the origin, stays an order below it
+        return reg.maxabs() <= 1e3 * min(cells) * 8 and reg.maxabs() <= self.u * 1024
 
 
 def draw_dims_units(rng, ndim, allow_mixed_units=True):
@@ -163,7 +166,10 @@ def draw_vdims_mapping(rng, nvdim, dims, p_unmapped=0.15):
             mapping[v] = targets[i]
         else:
             mapping[v] = f"none{i}"
-    return vd, mapping
+    # the order in which the caller writes the mapping must not matter
+    order = list(mapping)
+    rng.shuffle(order)
+    return vd, {k: mapping[k] for k in order}
 
 
 def draw_value_spec(rng, dtype, family="idx"):
